@@ -327,6 +327,10 @@ func (c *decoratorController) processNextWorkItem() bool {
 }
 
 func (c *decoratorController) enqueueParentObject(obj interface{}) {
+	// A delete observed only by a relist arrives wrapped in a tombstone.
+	if tombstone, ok := obj.(cache.DeletedFinalStateUnknown); ok {
+		obj = tombstone.Obj
+	}
 	// If the parent doesn't match our selector, and it doesn't have our
 	// finalizer, we don't care about it.
 	if parent, ok := obj.(*unstructured.Unstructured); ok {
